@@ -597,8 +597,7 @@ class World(object):
         # frames completed by this chunk (by the only framing MQTT has)
         frames = []
         if not conn.in_desync:
-            view = conn.inb[:conn.in_delivered]
-            fr, pos, err = rc.split_stream(view, conn.in_framed)
+            fr, pos, err = rc.split_stream(conn.inb, conn.in_framed, conn.in_delivered)
             conn.in_framed = pos
             if err is not None:
                 conn.in_desync = True
@@ -666,8 +665,9 @@ class World(object):
             if not order:
                 raise StepSkipped("no timers")
             t0 = order[0].getTime()
-            ties = [c for c in order if c.getTime() - t0 <= EPS] if t0 > self.now else \
-                   [c for c in order if c.getTime() <= self.now + EPS]
+            # a reactor runs overdue calls in due-time order: only calls due at the same
+            # instant are a genuine tie
+            ties = [c for c in order if c.getTime() - t0 <= EPS]
             limit = st.get("max_t")
             if (limit is not None and t0 > limit) or t0 > HORIZON:
                 # beyond ~30 virtual years float time loses sub-second precision
